@@ -1,3 +1,16 @@
 //! Shared helpers for the verification harness binaries.
 pub mod rng;
 pub mod coqfmt;
+
+/// Durations and instants handed to the timer APIs by the C18 harnesses.  What a timer does (its id, its requests,
+/// its outcome) must not depend on WHEN it is due, so the harnesses vary the value with the timer's index and
+/// include the boundary values: zero, one nanosecond, the largest duration the protocol can carry, the epoch.
+pub mod when {
+    use std::time::{Duration, SystemTime};
+    pub fn dur(i: usize) -> Duration {
+        match i % 5 { 0 => Duration::from_secs(2), 1 => Duration::ZERO, 2 => Duration::from_nanos(1), 3 => Duration::from_nanos(u64::MAX), _ => Duration::from_millis(1) }
+    }
+    pub fn at(i: usize) -> SystemTime {
+        match i % 4 { 0 => SystemTime::UNIX_EPOCH + Duration::from_secs(1_700_000_000), 1 => SystemTime::UNIX_EPOCH, 2 => SystemTime::UNIX_EPOCH + Duration::from_nanos(1), _ => SystemTime::UNIX_EPOCH + Duration::from_secs(4_000_000_000) }
+    }
+}
